@@ -43,6 +43,23 @@ def _written_quals(func: ast.AST) -> Dict[str, bool]:
             for target in node.targets:
                 if isinstance(target, ast.Subscript) and isinstance(target.slice, ast.Constant) and isinstance(target.slice.value, str):
                     keys[target.slice.value] = keys.get(target.slice.value, False) or not cond
+                elif isinstance(target, ast.Subscript) and isinstance(target.slice, ast.Name):
+                    # a table-driven writer: `for key, value, ... in [("k1", ...), ("k2", ...)]: quals[key] = ...`
+                    for loop in [a for a in _anc(node, func) if isinstance(a, ast.For)]:
+                        targets = loop.target.elts if isinstance(loop.target, ast.Tuple) else [loop.target]
+                        names = [t.id if isinstance(t, ast.Name) else None for t in targets]
+                        if target.slice.id not in names:
+                            continue
+                        column = names.index(target.slice.id)
+                        table = loop.iter
+                        if isinstance(table, ast.Name):
+                            values = bound_from(func, table.id)
+                            table = values[0] if len(values) == 1 else table
+                        if isinstance(table, (ast.List, ast.Tuple)):
+                            for row in table.elts:
+                                cell = row.elts[column] if isinstance(row, ast.Tuple) and column < len(row.elts) else row
+                                if isinstance(cell, ast.Constant) and isinstance(cell.value, str):
+                                    keys[cell.value] = keys.get(cell.value, False)   # written under the loop's own test
         if isinstance(node, ast.Dict):
             for key in node.keys:
                 if isinstance(key, ast.Constant) and isinstance(key.value, str):
@@ -416,6 +433,81 @@ def r10_7(ctx: Ctx) -> None:
                form=txt(ctor)[:100])
 
 
+def _numeric(type_text: Optional[str]) -> bool:
+    """ is this (mypy) type a number, or an optional number?  Zero is a value of such an attribute. """
+    if not type_text:
+        return False
+    text = type_text.strip()
+    if text.startswith("Union[") and text.endswith("]"):
+        members = [m.strip() for m in text[6:-1].split(",")]
+    else:
+        members = [text]
+    members = [m for m in members if m not in ("None", "builtins.None")]
+    return bool(members) and all(m in ("builtins.float", "builtins.int") for m in members)
+
+
+def r10_8(ctx: Ctx) -> None:
+    """ what decides whether a qualifier / JSON key is written: for an optional *number* (a score, an e-value, a
+        coordinate) the writer tests `is not None` - a truthiness test drops 0 and 0.0, which the reader then turns into
+        None.  Types come from mypy; a name bound by walking a literal table of (key, value, ...) rows takes the types
+        of that column.  Every truthiness-guarded write is an instance; it holds when the tested value is not a number. """
+    from .. import typedb as _typedb
+    db = _typedb.load(ctx.repo)
+    files = [rel for rel in sorted(ctx.repo.modules) if rel.startswith(SECMET + "features/") or rel == SER]
+    if ctx.tier == "thorough":
+        files = sorted(ctx.repo.modules)
+    count = 0
+    for rel in files:
+        for qual, func in ctx.repo.functions(rel):
+            if qual.split(".")[-1] not in ("to_biopython", "to_json"):
+                continue
+            for node in walk_local(func):
+                if not isinstance(node, ast.If):
+                    continue
+                test = node.test
+                negated = isinstance(test, ast.UnaryOp) and isinstance(test.op, ast.Not)
+                subject = test.operand if negated else test
+                if not isinstance(subject, (ast.Name, ast.Attribute)):
+                    continue
+                arm = node.orelse if negated else node.body
+                writes = [n for st in arm for n in [st] + list(walk_local(st))
+                          if (isinstance(n, ast.Assign) and isinstance(n.targets[0], ast.Subscript))
+                          or (isinstance(n, ast.Call) and last_attr(n) in ("update", "append", "setdefault"))]
+                if not writes:
+                    continue
+                types = [db.type_at(rel, subject)]
+                if isinstance(subject, ast.Name):
+                    # the column of a literal table the name walks over
+                    for loop in [lp for lp in enclosing_loops(node, stop=func) if isinstance(lp, ast.For)]:
+                        targets = loop.target.elts if isinstance(loop.target, ast.Tuple) else [loop.target]
+                        names = [t.id if isinstance(t, ast.Name) else None for t in targets]
+                        if subject.id not in names:
+                            continue
+                        column = names.index(subject.id)
+                        table = loop.iter
+                        if isinstance(table, ast.Name):
+                            values = bound_from(func, table.id)
+                            table = values[0] if len(values) == 1 else table
+                        if isinstance(table, (ast.List, ast.Tuple)):
+                            for row in table.elts:
+                                cell = row.elts[column] if isinstance(row, ast.Tuple) and column < len(row.elts) else \
+                                    row if not isinstance(loop.target, ast.Tuple) else None
+                                if cell is not None:
+                                    types.append(db.type_at(rel, cell))
+                    for value in bound_from(func, subject.id):
+                        types.append(db.type_at(rel, value))
+                count += 1
+                ctx.repo.consulted.add(rel)
+                bad = [t for t in types if _numeric(t)]
+                ctx.ob("R10.8", rel, node, qual, f"write decided by `{txt(test)[:40]}`", not bad,
+                       "an optional number decides a write by `is not None`: a truthiness test leaves out 0 and 0.0 (an e-value "
+                       "that underflowed to 0.0, a score of 0), and the reloaded feature then holds None",
+                       detail="" if not bad else f"`{txt(subject)}` can be a number ({bad[0]}): zero is dropped",
+                       form="; ".join(sorted({t for t in types if t}))[:120])
+    if count < 10:
+        raise AnalysisError(f"R10.8: expected at least 10 truthiness-guarded writes in the serialisers, found {count}")
+
+
 def run(ctx: Ctx) -> None:
     ctx.rule("R10.1", "qualifiers required on reload are written by to_biopython", floor=12)
     ctx.rule("R10.2", "all stored feature lists are written out; dispatch by resolved feature type", floor=12)
@@ -431,3 +523,5 @@ def run(ctx: Ctx) -> None:
     r10_3(ctx)
     r10_4(ctx)
     r10_5(ctx)
+    ctx.rule("R10.8", "an optional number decides a write by `is not None`, not by truthiness", floor=10)
+    r10_8(ctx)
